@@ -62,6 +62,8 @@ def run_case(c):
     """returns (worst or None); raises on crash"""
     th, ob, kind, rel = dict(c["theory"]), dict(c["obs"]), c["kind"], c["rel"]
     pt = [dict(x=c["x"], Q2=c["Q2"])]
+    if kind.startswith("XS"):
+        pt = [dict(x=c["x"], Q2=c["Q2"], y=0.5)]        # cross sections are linear in the structure functions of one flavour: additivity carries over
     if rel == "zm":
         th.update(FNS="ZM-VFNS")
         out = runs.run(cards.theory_card(**th), cards.obs_card({kind + "_total": pt, kind + "_light": pt}, **ob))
@@ -101,7 +103,8 @@ def patrol(chk, n, wide=False):
     quick = chk.tier == "quick"
     # always part of the patrol: fixed-flavour total = light + heavy with the two integral-based target-mass prescriptions
     fixed = [] if wide else [dict(rel="ffns", theory=dict(PTO=1, PTODIS=1, TMC=t, MP=0.5, mc=1.5, mb=4.5, mt=173.0), obs=dict(prDIS="NC"), kind=k, x=0.25, Q2=8.0,
-                                  fixed_nfff=3) for t, k in ((1, "F2"), (3, "FL"))]
+                                  fixed_nfff=3) for t, k in ((1, "F2"), (3, "FL"))] + \
+            [dict(rel="ffns", theory=dict(PTO=1, PTODIS=1, mc=1.5, mb=4.5, mt=173.0), obs=dict(prDIS="NC", ProjectileDIS="electron"), kind="XSHERANC", x=0.25, Q2=90.0, fixed_nfff=3)]
     for it in range(n + len(fixed)):
         c = fixed[it - n] if it >= n else gen_case(chk.rng, quick, wide)
         if c['theory']['PTO'] == 3:
@@ -119,7 +122,7 @@ def patrol(chk, n, wide=False):
         if r is not None:
             bad.append((c, r))
     chk.patrol["sum_rules_wide" if wide else "sum_rules"] = dict(cases=n + len(fixed), failures=len(bad), distribution=dist, crashed_not_counted=crashed,
-                                   rule="real runs (target-mass corrections on in part of them, two fixed FFNS cases with TMC 1 and 3): ZM total vs light; FFNS total vs light + massive heavy quarks; FONLL-FFNS full vs massless + "
+                                   rule="real runs (target-mass corrections on in part of them, two fixed FFNS cases with TMC 1 and 3, one fixed FFNS cross-section case XSHERANC): ZM total vs light; FFNS total vs light + massive heavy quarks; FONLL-FFNS full vs massless + "
                                         "massive; sum over the six NCPositivityCharge runs vs unrestricted; every order key, entry-wise, tol 1e-11")
     for c, r in bad[:3]:
         chk.violation("%s:%s:%s" % (c["rel"], c["kind"], c["obs"]["prDIS"]),
